@@ -481,7 +481,7 @@ func C09(c *Ctx) {
 // ---------------------------------------------------------------------------------------
 
 func C08(c *Ctx) {
-	w, r := c.W, c.R
+	r := c.R
 	r.Explanation = "(A1) the storage-limit section is written only by registration (params.DefaultStorageLimit), by the purchase handler and by genesis import; " +
 		"(A2) in the purchase handler every state-changing step is guarded by the owner predicate (C13), by not(limit+number > params.MaxStorageLimit) and by the wrap check not(limit+number < limit), where limit is the stored limit of the registration named in the message; the stored new limit is exactly that checked sum, under the key of that id; " +
 		"(A9, sink-scoped) every uint64 +/- on message/state/param values in the functions reachable from the record and purchase handlers and the storage query is range-guarded by a dominating comparison (or is a ±1 counter step whose decrement is guarded by count > limit); " +
@@ -499,6 +499,14 @@ func C08(c *Ctx) {
 	r.Floor("functions of beacon scanned for dropped updates to record copies", lostUpdates(c, "beacon"), 20)
 	r.Trusted = []string{"the ante max-slot check is only an early reject; the handler is the authority"}
 	r.NotDecided = []string{"exactly the newest min(total, limit) records are retained (inductive, numeric)", "behaviour after governance lowers limits below current usage"}
+	storageLimitRules(c)
+}
+
+// storageLimitRules: the purchase guards, the stored new limit, the range guards of the uint64 arithmetic on limits and
+// counters, the prune pairing and the storage query of both record modules (C08; C16 runs them too: "after a successful
+// parameter update every limit check uses the new values").
+func storageLimitRules(c *Ctx) {
+	w, r := c.W, c.R
 	for _, rm := range recMods {
 		n := whoMayReach(c, "A1.limit-writers", "the "+rm.M+" storage-limit section", func(e ir.Effect) bool { return e.Kind == "StoreWrite" && e.Section == rm.SecLimit },
 			[]string{"MSG:" + rm.M + "." + rm.Register, "MSG:" + rm.M + "." + rm.Purchase, "INITGEN:" + rm.M})
